@@ -159,8 +159,9 @@ def _work(item, seed, tier):
     for name, p in item:
         p = dict(p, seed=seed)
         v = CASES[name](p)
+        vac = p.pop("_vacuous_style", False)
         nontrivial = p.get("err") != "absent" or p.get("state") not in ("expected", "absent")
-        acc.case(key=(name, core.jsonable(p)), outcome=f"{p['step']}:{'ok' if not v else v[0][0]}", nontrivial=nontrivial,
+        acc.case(key=(name, core.jsonable(p)), outcome=f"{p['step']}:{'honest-fails-under-style:' + str(p.get('wire')) if vac else ('ok' if not v else v[0][0])}", nontrivial=nontrivial,
                  sample={"case": name, "params": p}, symbols=(p["step"], f"err:{p['err']}", f"state:{p['state']}", f"style:{p['style']}"))
         for sig, detail in v:
             acc.violation(sig, name, p, detail)
